@@ -289,7 +289,7 @@ func (s *Script) IsP2PK() bool {
 		return false
 	}
 
-	if len(parts) == 2 && len(parts[0]) > 0 && parts[1][0] == OpCHECKSIG {
+	if len(parts) == 2 && len(parts[0]) > 0 && len(parts[1]) > 0 && parts[1][0] == OpCHECKSIG {
 		pubkey := parts[0]
 		version := pubkey[0]
 
@@ -346,6 +346,18 @@ func isP2PKHInscriptionHelper(parts [][]byte) bool {
 	if len(parts) < 13 {
 		return false
 	}
+	// parts decoded from zero-length pushes are empty: nothing below may index into them
+	for i, p := range parts {
+		if i > 13 {
+			break
+		}
+		if len(p) == 0 && i != 2 && i != 9 && i != 11 {
+			return false
+		}
+	}
+	if len(parts[7]) < 3 {
+		return false
+	}
 	valid := parts[0][0] == OpDUP &&
 		parts[1][0] == OpHASH160 &&
 		parts[3][0] == OpEQUALVERIFY &&
@@ -373,7 +385,7 @@ func (s *Script) ParseInscription() (*InscriptionArgs, error) {
 		return nil, err
 	}
 
-	if !isP2PKHInscriptionHelper(p) {
+	if !isP2PKHInscriptionHelper(p) || len(*s) < 25 {
 		return nil, ErrP2PKHInscriptionNotFound
 	}
 
@@ -409,7 +421,7 @@ func (s *Script) IsMultiSigOut() bool {
 		return false
 	}
 
-	if !isSmallIntOp(parts[0][0]) {
+	if len(parts[0]) < 1 || !isSmallIntOp(parts[0][0]) {
 		return false
 	}
 
